@@ -11,6 +11,12 @@ CLAIMED = {
  "C16": dict(technique="Coq proof: conservation invariant (assigned + unassigned = window) and refinement to the wire accountant; lock-step correspondence",
    text="Machine-checked theorems about the same Gallina model as C02: reported capacity <= assigned <= remaining wire credit of the stream, total assigned <= remaining connection credit, exact conservation of capacity across reserve/send/reset/SETTINGS while no connection error occurs (inequality afterwards), poll_capacity never yields 0. Tied to /repo by the lock-step (incl. capacity()/poll_capacity results and wake/notify events) and by a conservation oracle on the statistics snapshot after every step.",
    note="Trusted as C02. Not proved: same-step wake-up of a parked poll_capacity task and FIFO redistribution order (explored by the lock-step only).", design="5/C16"),
+ "C05": dict(technique="Coq proof: counter invariants by induction over calls into counts.rs; lock-step correspondence; wire/snapshot oracles",
+   text="Machine-checked theorems about an executable Gallina model of counts.rs: for every sequence of calls (all limits incl. 0/1/unlimited and mid-connection SETTINGS changes, all stream-state histories as universally quantified inputs) a local stream is admitted only below the limit in force, the counted peer-initiated streams never exceed the advertised limit, transition_after gives a closed stream's slot back exactly once, counters equal the number of counted records, no assert of counts.rs fires. Tied to /repo by a lock-step on every counts.rs call (ten counters, is_counted flag, every can_inc_* result compared inside Coq) plus oracles on real traces: wire-level concurrency vs the peer's acknowledged limit, REFUSED_STREAM never accepted, no closed-and-flushed record still counted after any step.",
+   note="Trusted as C02. The callers' query-then-increment discipline is a Stuck guard checked by the lock-step (it exposed the push-promise panic repaired in /repo). Not proved: that every closing path reaches transition_after, and progress of queued requests — explored by the oracles only.", design="5/C05"),
+ "C11": dict(technique="Coq proof: Huffman table-walk decoder = RFC 7541 bit-level decoder on every input (induction + finite cell sweep); generated tables = RFC tables; differential run vs hpack::huffman",
+   text="Machine-checked: the regenerated ENCODE/DECODE tables of /repo equal the RFC 7541 Appendix B code; the model of h2's table-driven Huffman decoder agrees with the RFC bit-level reference on EVERY byte string (so EOS in the string, padding > 7 bits and non-EOS padding are rejected), decode(encode s) = s for all s. The models are tied to /repo by regenerating the tables on every run and by differential runs of hpack::huffman::{encode,decode} against the model evaluated inside Coq. The header-block decoder (integers, representations, dynamic table, chunk independence) is being added to this check; until then that part of C11 is covered only by the statement in DESIGN.md.",
+   note="Trusted: Coq kernel, the transcription of RFC 7541 Appendix B in Ref/Rfc7541HuffTable.v (taken from the RFC text embedded in /repo/util/genhuff), translator for the tables. http-crate validators are predicates.", design="5/C11"),
 }
 
 NA_REASON = "check not built yet (work in progress in this round; will be claimed once its theorem and correspondence run end to end)"
